@@ -16,7 +16,10 @@ hypotheses (no `_partial` theorem in this file):
 3. string literals in either quote style (chosen per literal by the layout) with their own quote
    character escaped as `\q`.
 
-`WF` (the well-formed programs): identifiers `[A-Za-z_][A-Za-z0-9_]*`, natural-number literals,
+`WF` (the well-formed programs): identifiers `[A-Za-z_][A-Za-z0-9_]*`, natural-number literals of at
+most `maxIntDigits` = 4300 digits (CPython's default `sys.get_int_max_str_digits()`: the runtime's
+`int()` refuses longer digit strings, and the repaired `QInteger.parse` reports them as a parse
+error - being readable by the interpreter's runtime is part of what a well-formed program is),
 string values without `;` and without backslash (brackets, commas, both quotes, `=`, `:` allowed),
 dict literals with distinct keys, any number of arguments / elements at any nesting depth. The
 registry and the builtin bodies (`apply`) are arbitrary; the statements hold in particular for the
